@@ -175,8 +175,9 @@ def judge(run, c, x, xste, y, sc, eps32, model, mirrored):
     if qn == "binary":
       return F(1) if x[i] >= 0 else (F(0) if c["use01"] else F(-1))
     if not auto:
+      # zero exactly below the threshold; otherwise the sign, zero counting as positive (threshold 0)
       t = F(float(np.float32(0.33 if c["thr"] is None else c["thr"])))
-      return F(0) if abs(x[i]) < t else (F(1) if x[i] > 0 else F(-1))
+      return F(0) if abs(x[i]) < t else (F(1) if x[i] >= 0 else F(-1))
     return None
 
   for i in range(n):
@@ -222,16 +223,17 @@ def judge(run, c, x, xste, y, sc, eps32, model, mirrored):
       if k != exp:
         run.violate("sign", key0, dict(det0, i=i, x=str(x[i]), code=str(k)), mirrored=mirrored)
     else:
-      if k != 0 and (k > 0) != (x[i] > 0):
+      # a non-zero code has the sign of the input; a ZERO input has a non-zero code only where the
+      # threshold lets it through (fixed threshold <= 0, judged below), and then it counts as positive
+      if k != 0 and ((k > 0) != (x[i] > 0) if x[i] != 0 else (auto or k < 0)):
         run.violate("sign", key0, dict(det0, i=i, x=str(x[i]), code=str(k)), mirrored=mirrored)
       if not auto:
         t = F(float(np.float32(0.33 if c["thr"] is None else c["thr"])))
         exp0 = abs(x[i]) < t
         run.count("ternary:fixed:%s" % ("zero" if exp0 else ("tie" if abs(x[i]) == t else "nonzero")))
         if (k == 0) != exp0:
-          # threshold 0 is legal (and falsy): |0| is not below it, yet sign(0) = 0 makes the code 0
-          why = "zero-threshold-zero-input" if (t == 0 and x[i] == 0) else "fixed"
-          run.violate("threshold", dict(key0, why=why), dict(det0, i=i, x=str(x[i]), code=str(k), thres=str(t)),
+          # (threshold 0 is legal and falsy: |0| is not below it, the code of the input 0 must not be 0)
+          run.violate("threshold", dict(key0, why="fixed"), dict(det0, i=i, x=str(x[i]), code=str(k), thres=str(t)),
                       mirrored=mirrored)
   # ---- data-dependent scale
   if not auto:
@@ -241,7 +243,7 @@ def judge(run, c, x, xste, y, sc, eps32, model, mirrored):
   sa = c.get("sa")
   eps = c.get("eps")
   if qn == "binary" and sa is not None and any(a < 0 for a in (sa if isinstance(sa, list) else [sa])):
-    # numpy convention: -1 is the last axis (the SPEC groups below follow it; the code ignores such entries)
+    # numpy convention: -1 is the last axis (the SPEC groups below follow it)
     key0 = dict(key0, axis="negative")
   groups = A.spec_groups(c["shape"], sa if qn == "binary" else None, eps if qn == "binary" else None, c["ch_last"])
   by = {}
@@ -443,6 +445,18 @@ def run(run, tier):
           want.append([int(v) for v in np.asarray(Q._get_scaling_axis(sa, rank)).ravel().tolist()])
         except Exception as e:  # pylint: disable=broad-except
           want.append("raises:" + type(e).__name__)
+  # negative axes (counted from the end), through the argument-level model `axisOfArg`; axes below -rank are
+  # no axes of the tensor: the int must be rejected by both, the list entry is ignored by both
+  for rank in range(1, 6):
+    specs = list(range(-rank - 1, 0)) + [[-1], [-rank], [0, -1], [-1, -rank], [-rank - 1], [-1, rank - 1]]
+    if rank >= 3:
+      specs += [[-2, 0], [1, -1], [-3, -2, -1]]
+    for sa in specs:
+      sl.append(dict(op="scaling_axis_arg", sa=sa, len=rank, ch_last=True))
+      try:
+        want.append([int(v) for v in np.asarray(Q._get_scaling_axis(sa, rank)).ravel().tolist()])
+      except Exception as e:  # pylint: disable=broad-except
+        want.append("raises")
   K.set_image_data_format("channels_last")
   for sh, sa, eps in [([16, 32], 1, 4), ([16, 32], [0, 1], [2, 4]), ([4, 8, 8, 16], [2, 3], [2, 4]),
                       ([4, 8, 8, 16], [1, 3], 2), ([8], 0, 2), ([2, 4, 8], [0, 1, 2], [2, 2, 2]),
@@ -460,7 +474,10 @@ def run(run, tier):
     run.case(key=("static", core.json.dumps(l, sort_keys=True)), nontrivial=True)
     run.compared += 1
     run.count("static:" + l["op"])
-    got = o.get("axes") if l["op"] == "scaling_axis" else {k: o.get(k) for k in ("unrolled", "uaxes", "rolled")}
+    if l["op"] == "scaling_axis_arg":
+      got = "raises" if "err" in o else o.get("axes")
+    else:
+      got = o.get("axes") if l["op"] == "scaling_axis" else {k: o.get(k) for k in ("unrolled", "uaxes", "rolled")}
     if got != w:
       run.disagree("static:" + l["op"], l, w, got)
   run.extra["cases"] = len(cases)
